@@ -327,91 +327,10 @@ func TestCliTmpl(t *testing.T) {
 		off := Pick(r, net.IPv4(10, 0, 0, byte(r.Intn(256))), net.IPv4(192, 168, byte(r.Intn(256)), byte(r.Intn(256))), net.IPv4zero, net.IPv4bcast)
 		srv := Pick(r, net.IPv4(10, 0, 0, 1), net.IPv4(byte(r.U64()), byte(r.U64()), byte(r.U64()), byte(r.U64())))
 		st := Pick(r, "discover", "selecting", "renewing", "rebinding")
-		var f func() ([]byte, net.IP, net.IP)
-		var xid uint32
-		switch st {
-		case "discover":
-			f, xid = msgtmpl.Discover(iface)
-		case "selecting":
-			f, xid = msgtmpl.RequestSelecting(iface, off, srv)
-		case "renewing":
-			f, xid = msgtmpl.RequestRenewing(iface, off, srv)
-		default:
-			f, xid = msgtmpl.RequestRebinding(iface, off)
-		}
+		f, xid := tmplFor(st, iface, off, srv)
 		for k := 0; k < 2; k++ { // two transmissions of one exchange
 			b, src, dst := f()
-			ident := int(b[4])<<8 | int(b[5])
-			pair := "-"
-			if src != nil && dst != nil {
-				pair = IPStr(src) + ">" + IPStr(dst)
-			}
-			op := fmt.Sprintf("tmpl st=%s mac=%s xid=%d ident=%d off=%s srv=%s", st, Hex(mac), xid, ident, IPStr(off), IPStr(srv))
-			s.Op(op, "ok "+Hex(b)+" "+pair, true)
-			s.Count("tmpl/" + st)
-			// ---- monitor: the property's pattern, with the reference parsers ----
-			fail := func(what string) {
-				s.Find(Finding{Property: "C16", Signature: "tmpl:" + st + ":" + what, Stream: "clitmpl", What: what, Ops: []string{op}, Observed: Hex(b)})
-			}
-			q := ParseReq(b)
-			ip, _ := RefParseIPv4(b)
-			if !q.OK || ip == nil || !ip.HdrOK {
-				fail("client message is not a BOOTREQUEST in a valid IPv4/UDP datagram")
-				continue
-			}
-			ud, _ := RefParseUDP(ip)
-			if ud == nil || !ud.CsumOK || ud.Sp != 68 || ud.Dp != 67 {
-				fail("client message does not go from port 68 to 67 with a valid UDP checksum")
-			}
-			if !bytes.Equal(q.Chaddr, mac[:min(len(mac), 16)]) && len(mac) <= 16 {
-				fail("client message does not carry the interface's hardware address")
-			}
-			wantCid := dhcpmsg.OptionClientIdentifier(mac).Data
-			if !bytes.Equal(q.Cid, wantCid) || len(q.Cid) != 15 || q.Cid[0] != 0xff {
-				fail("client identifier is not derived from the hardware address")
-			}
-			has := func(code byte) bool {
-				for _, o := range q.M.Opts {
-					if o.Code == code {
-						return true
-					}
-				}
-				return false
-			}
-			if !has(57) || !has(55) || !has(53) {
-				fail("message type / maximum message size / parameter request list missing")
-			}
-			zero := func(x net.IP) bool { return x.Equal(net.IPv4zero) }
-			ci := net.IP(q.M.Ciaddr[:])
-			switch st {
-			case "discover":
-				if q.Type != 1 || !zero(q.Src) || !q.Dst.Equal(net.IPv4bcast) || !zero(ci) || has(50) || has(54) {
-					fail("DISCOVER is not a broadcast from 0.0.0.0 with zero ciaddr and neither option")
-				}
-			case "selecting":
-				if q.Type != 3 || !zero(q.Src) || !q.Dst.Equal(net.IPv4bcast) || !zero(ci) || !q.ReqIP.Equal(off) || !q.SrvID.Equal(srv) {
-					fail("selecting REQUEST does not name the offered address and the chosen server in a broadcast from 0.0.0.0")
-				}
-			case "renewing":
-				if q.Type != 3 || !q.Src.Equal(off) || !q.Dst.Equal(srv) || !ci.Equal(off) || has(50) || has(54) {
-					fail("renewing REQUEST is not sent from the leased address to the server with ciaddr set and neither option")
-				}
-				if pair == "-" {
-					fail("renewing REQUEST does not ask for a unicast socket")
-				} else if !src.Equal(off) || !dst.Equal(srv) {
-					fail("renewing REQUEST is not handed to the link layer as a unicast from the leased address to the server (source/destination of the send differ from the packet's)")
-				}
-			case "rebinding":
-				if q.Type != 3 || !q.Src.Equal(off) || !q.Dst.Equal(net.IPv4bcast) || !ci.Equal(off) || has(50) || has(54) {
-					fail("rebinding REQUEST is not a broadcast from the leased address with ciaddr set and neither option")
-				}
-				if pair != "-" {
-					fail("rebinding REQUEST is not handed to the link layer as a broadcast")
-				}
-			}
-			if q.M.Xid != xid {
-				fail("retransmission does not reuse the transaction id of its exchange")
-			}
+			checkTmplTx(s, st, mac, off, srv, xid, b, src, dst)
 		}
 	}
 	// retransmission schedule of the real sendMessage under the virtual clock
@@ -426,13 +345,30 @@ func TestCliTmpl(t *testing.T) {
 			seg := rsocks.Seg(iface)
 			var times []int64
 			var xids []uint32
+			var wire, built [][]byte
 			seg.OnSend = func(f rsocks.Frame) {
 				if f.Proto == 0x0800 {
+					wire = append(wire, append([]byte(nil), f.Payload...))
 					times = append(times, time.Now().UnixNano())
 					xids = append(xids, uint32(f.Payload[32])<<24|uint32(f.Payload[33])<<16|uint32(f.Payload[34])<<8|uint32(f.Payload[35]))
 				}
 			}
-			f, _ := msgtmpl.Discover(iface)
+			// every requesting state; each call the sender makes of the template is checked like a first transmission
+			// (retransmissions happen seconds to minutes later on the virtual clock)
+			st := Pick(r, "discover", "discover", "selecting", "renewing", "rebinding")
+			off := net.IPv4(10, 0, 0, byte(1+r.Intn(250)))
+			srv := net.IPv4(10, 0, 0, 254)
+			f0, xid := tmplFor(st, iface, off, srv)
+			t00 := time.Now()
+			ncall := 0
+			f := func() ([]byte, net.IP, net.IP) {
+				b, src, dst := f0()
+				ncall++
+				built = append(built, append([]byte(nil), b...))
+				checkTmplTx(s, st, cliMAC, off, srv, xid, append([]byte(nil), b...), src, dst,
+					fmt.Sprintf("call %d of the template by sendMessage, %v after the first", ncall, time.Since(t00)))
+				return b, src, dst
+			}
 			dur := Pick(r, 10*time.Second, time.Minute, 10*time.Minute, 45*time.Minute)
 			tStart := time.Now().UnixNano()
 			ctx, cancel := context.WithTimeout(context.Background(), dur)
@@ -449,7 +385,18 @@ func TestCliTmpl(t *testing.T) {
 			time.Sleep(5 * time.Minute)
 			synctest.Wait()
 			prev := int64(700 * time.Millisecond)
-			hist := []string{fmt.Sprintf("sendMessage for %v: %d transmissions", dur, len(times))}
+			hist := []string{fmt.Sprintf("sendMessage (%s) for %v: %d transmissions", st, dur, len(times))}
+			for k := range wire { // the sender may build a message it does not send (to learn the addresses); what it sends must be one it built
+				found := false
+				for _, bb := range built {
+					found = found || bytes.Equal(wire[k], bb)
+				}
+				if !found {
+					s.Find(Finding{Property: "C16", Signature: "wire-differs-from-template", Stream: "clitmpl", What: "the bytes handed to the socket are not a message the template built",
+						Ops: append(hist, fmt.Sprintf("transmission %d", k+1)), Observed: Hex(wire[k])})
+					break
+				}
+			}
 			for k := 1; k < len(times); k++ {
 				gap := times[k] - times[k-1]
 				op := fmt.Sprintf("delayok prev=%d next=%d", prev, gap)
@@ -471,6 +418,110 @@ func TestCliTmpl(t *testing.T) {
 			}
 			s.Count(fmt.Sprintf("retrans/n=%d", min(len(times)/5*5, 30)))
 		})
+	}
+}
+
+// tmplFor returns the message template of a requesting state and its transaction id.
+func tmplFor(st string, iface *net.Interface, off, srv net.IP) (func() ([]byte, net.IP, net.IP), uint32) {
+	switch st {
+	case "discover":
+		return msgtmpl.Discover(iface)
+	case "selecting":
+		return msgtmpl.RequestSelecting(iface, off, srv)
+	case "renewing":
+		return msgtmpl.RequestRenewing(iface, off, srv)
+	}
+	return msgtmpl.RequestRebinding(iface, off)
+}
+
+// checkTmplTx records one (re)transmission of a template for the model (which rebuilds the bytes from the state, the
+// addresses, the transaction id and the IP identification) and applies C16's pattern with the reference parsers.
+func checkTmplTx(s *Stream, st string, mac net.HardwareAddr, off, srv net.IP, xid uint32, b []byte, src, dst net.IP, note ...string) {
+	if len(b) < 6 {
+		s.Find(Finding{Property: "C16", Signature: "tmpl:" + st + ":short", Stream: "clitmpl", What: "client message is not a BOOTREQUEST in a valid IPv4/UDP datagram", Ops: []string{"tmpl st=" + st}, Observed: Hex(b)})
+		return
+	}
+	ident := int(b[4])<<8 | int(b[5])
+	pair := "-"
+	if src != nil && dst != nil {
+		pair = IPStr(src) + ">" + IPStr(dst)
+	}
+	op := fmt.Sprintf("tmpl st=%s mac=%s xid=%d ident=%d off=%s srv=%s", st, Hex(mac), xid, ident, IPStr(off), IPStr(srv))
+	s.Op(op, "ok "+Hex(b)+" "+pair, true)
+	s.Count("tmpl/" + st)
+	// ---- monitor: the property's pattern, with the reference parsers ----
+	fail := func(what string) {
+		s.Find(Finding{Property: "C16", Signature: "tmpl:" + st + ":" + what, Stream: "clitmpl", What: what, Ops: append([]string{op}, note...), Observed: Hex(b)})
+	}
+	// validity of the datagram as such is C13's claim about every packet the stack assembles as well
+	failWire := func(what string) {
+		fail(what)
+		s.Find(Finding{Property: "C13", Signature: "tmpl:" + st + ":" + what, Stream: "clitmpl", What: "a packet the client assembled: " + what, Ops: append([]string{op}, note...), Observed: Hex(b)})
+	}
+	q := ParseReq(b)
+	ip, _ := RefParseIPv4(b)
+	if ip == nil || !ip.HdrOK {
+		failWire("client message is not a valid IPv4 datagram (version, header length, total length, header checksum)")
+		return
+	}
+	if !q.OK {
+		fail("client message is not a BOOTREQUEST in a valid IPv4/UDP datagram")
+		return
+	}
+	ud, _ := RefParseUDP(ip)
+	if ud == nil || !ud.CsumOK {
+		failWire("client message does not carry a UDP datagram whose length matches and whose checksum verifies")
+	} else if ud.Sp != 68 || ud.Dp != 67 {
+		fail("client message does not go from port 68 to 67")
+	}
+	if !bytes.Equal(q.Chaddr, mac[:min(len(mac), 16)]) && len(mac) <= 16 {
+		fail("client message does not carry the interface's hardware address")
+	}
+	wantCid := dhcpmsg.OptionClientIdentifier(mac).Data
+	if !bytes.Equal(q.Cid, wantCid) || len(q.Cid) != 15 || q.Cid[0] != 0xff {
+		fail("client identifier is not derived from the hardware address")
+	}
+	has := func(code byte) bool {
+		for _, o := range q.M.Opts {
+			if o.Code == code {
+				return true
+			}
+		}
+		return false
+	}
+	if !has(57) || !has(55) || !has(53) {
+		fail("message type / maximum message size / parameter request list missing")
+	}
+	zero := func(x net.IP) bool { return x.Equal(net.IPv4zero) }
+	ci := net.IP(q.M.Ciaddr[:])
+	switch st {
+	case "discover":
+		if q.Type != 1 || !zero(q.Src) || !q.Dst.Equal(net.IPv4bcast) || !zero(ci) || has(50) || has(54) {
+			fail("DISCOVER is not a broadcast from 0.0.0.0 with zero ciaddr and neither option")
+		}
+	case "selecting":
+		if q.Type != 3 || !zero(q.Src) || !q.Dst.Equal(net.IPv4bcast) || !zero(ci) || !q.ReqIP.Equal(off) || !q.SrvID.Equal(srv) {
+			fail("selecting REQUEST does not name the offered address and the chosen server in a broadcast from 0.0.0.0")
+		}
+	case "renewing":
+		if q.Type != 3 || !q.Src.Equal(off) || !q.Dst.Equal(srv) || !ci.Equal(off) || has(50) || has(54) {
+			fail("renewing REQUEST is not sent from the leased address to the server with ciaddr set and neither option")
+		}
+		if pair == "-" {
+			fail("renewing REQUEST does not ask for a unicast socket")
+		} else if !src.Equal(off) || !dst.Equal(srv) {
+			fail("renewing REQUEST is not handed to the link layer as a unicast from the leased address to the server (source/destination of the send differ from the packet's)")
+		}
+	case "rebinding":
+		if q.Type != 3 || !q.Src.Equal(off) || !q.Dst.Equal(net.IPv4bcast) || !ci.Equal(off) || has(50) || has(54) {
+			fail("rebinding REQUEST is not a broadcast from the leased address with ciaddr set and neither option")
+		}
+		if pair != "-" {
+			fail("rebinding REQUEST is not handed to the link layer as a broadcast")
+		}
+	}
+	if q.M.Xid != xid {
+		fail("retransmission does not reuse the transaction id of its exchange")
 	}
 }
 
@@ -632,8 +683,11 @@ func TestCliSan(t *testing.T) {
 	root := filepath.Join(OutDir(), "chroot")
 	os.MkdirAll(filepath.Join(root, "etc"), 0o755)
 	exec.Command("cp", bin, filepath.Join(root, "psa-dhcpc")).Run()
-	const old = "# previous\nnameserver 9.9.9.9\n"
+	const oldShort = "# previous\nnameserver 9.9.9.9\n"
+	// a previous file longer than anything the hook writes, ending in lines the hook never produces: whatever survives of it shows
+	oldLong := "# previous\n" + strings.Repeat("nameserver 9.9.9.9\nnameserver 149.112.112.112\n", 12) + "search old.example old2.example\noptions rotate timeout:1 attempts:5\n"
 	for i := 0; i < nr; i++ {
+		old := Pick(r, oldShort, oldShort, oldLong, oldLong, "")
 		var env []string
 		switch r.Intn(4) {
 		case 0: // what the client itself would hand over
@@ -656,11 +710,14 @@ func TestCliSan(t *testing.T) {
 				env = append(env, "UNRELATED=1", "NOEQUALS", "PSA_DHCPC_OTHER=x=y") // no duplicate keys: os/exec keeps only the last one
 			}
 		}
-		os.WriteFile(filepath.Join(root, "etc", "resolv.conf"), []byte(old), 0o600)
+		os.Remove(filepath.Join(root, "etc", "resolv.conf"))
+		if old != "" {
+			os.WriteFile(filepath.Join(root, "etc", "resolv.conf"), []byte(old), 0o600)
+		}
 		cmd := exec.Command("/usr/sbin/chroot", root, "/psa-dhcpc", "-syshook")
 		cmd.Env = env
 		outb, err := cmd.CombinedOutput()
-		got, _ := os.ReadFile(filepath.Join(root, "etc", "resolv.conf"))
+		got, rerr := os.ReadFile(filepath.Join(root, "etc", "resolv.conf"))
 		var hx []string
 		for _, e := range env {
 			hx = append(hx, Hex([]byte(e)))
@@ -671,7 +728,7 @@ func TestCliSan(t *testing.T) {
 		}
 		op := "resolv env=" + hl
 		ans := "ok " + Hex(got)
-		if string(got) == old {
+		if (rerr == nil && old != "" && string(got) == old) || (rerr != nil && old == "") {
 			ans = "untouched"
 		}
 		if err != nil {
@@ -679,6 +736,7 @@ func TestCliSan(t *testing.T) {
 		}
 		s.Op(op, ans, ans != "untouched")
 		s.Count("chroot/" + strings.SplitN(ans, " ", 2)[0])
+		s.Count(fmt.Sprintf("chroot/previous-file=%d-bytes", len(old)))
 		// monitor: the grammar of the property
 		if ans != "untouched" && err == nil {
 			lines := strings.Split(string(got), "\n")
